@@ -1,4 +1,5 @@
 """C15 - date conditions compare the true age of the message."""
+import os
 import random
 import re
 import time
@@ -7,6 +8,8 @@ import vlib
 import evalcommon as ec
 import conffam
 import proc
+import c15locale
+import c15date
 
 UNITS = [('seconds', 1), ('minutes', 60), ('hours', 3600), ('days', 86400), ('weeks', 604800), ('months', 2592000), ('years', 31536000)]
 TZS = ['UTC', 'Europe/Stockholm', 'America/New_York', 'Asia/Kolkata', 'Australia/Lord_Howe', 'Pacific/Auckland', 'America/St_Johns',
@@ -58,8 +61,11 @@ def run(rep):
     sc = vlib.Scratch()
     h, env = ec.harness(sc)
     vlib.lean_gate(rep, 'C15', sc, [
-        'strptime (three layouts from the regenerated table) and the zone-name lookup (tzset/localtime) are the platform\'s on both sides',
+        'tparse: strptime (three layouts from the regenerated table) and the zone-name lookup (tzset/localtime) are the platform\'s on both sides',
         'the specification side of tparse uses the platform timegm; the model its own civil-date arithmetic (theorem C15_civil)',
+        'strp / timeparse / tparsec / rfcdate: strptime is the executable model Model/Strptime.lean (C locale, glibc 2.36 behaviour) on the model '
+        'side, tied to the platform\'s strptime and to timeparse() / time_parse() by differential execution; the theorems from the header text on '
+        '(C15_layouts, C15_rfc5322_*) are about that model; only the zone-NAME lookup remains the platform\'s',
     ])
     n = 3000 if rep.tier == 'quick' else 200000
     reqs = []
@@ -122,6 +128,10 @@ def run(rep):
                 'of now, parsed by the real time_parse with TZ unset, empty and set to five values: implementation = model = platform '
                 'specification; the result is the same under every TZ of the process; after the call getenv("TZ") is what it was (unset stays '
                 'unset) and localtime(now) has the offset it had before (op tzrestore)'}
+
+    # the text of the header: strptime and the layouts against the executable model and the RFC 5322 grammar (tools/c15date.py)
+    dd, dstat = c15date.stage(rep, rng, h, dict(env, LC_ALL='C'), sc, 1500 if rep.tier == 'quick' else 60000, TZS)
+    dd.conclude('strptime / timeparse / time_parse <-> Model/Strptime.lean')
 
     # date conditions around the true age, units, abbreviations, overflow: through the real parser and evaluator
     cases, expect = [], []
@@ -244,10 +254,69 @@ def run(rep):
                 if c.ast is None or not m or int(m.group(1)) != want:
                     rep.finding('unlisted', dict(c.readable(), implementation=(c.ast or c.impl or '')[:200], specification='age %d' % want,
                                                  what='unit value / age'))
+    # the date conditions once more with the executable model of strptime as the evaluator's oracle (MDSORT_STRPTIME=model makes the
+    # driver use Model.timeparseC instead of the platform's strptime), and Date headers in the layouts the RFC 5322 grammar allows
+    # (tools/c15date.py: odd letter case, one-digit day, several blanks / tabs, comments behind the zone, no seconds, no day of week)
+    mcases, mexp = [], []
+    for c, (kind, want) in zip(cases, expect):
+        if kind == 'age' and len(mcases) < (300 if rep.tier == 'quick' else 5000):
+            mcases.append(ec.Case(c.conf, [], c.msg, 'new', '1.host', '0', tz=c.tz))
+            mexp.append(('MATCH' if want else 'NOMATCH', None))
+    gen = c15date.Gen(rng)
+    for _ in range(400 if rep.tier == 'quick' else 6000):
+        f, lay = gen.rfc()
+        if not c15date.well_formed(f, lay) or f['year'] > 9999:
+            continue
+        cov = c15date.covered(f, lay)
+        if not cov and not (f['dow'] is None and f['sec'] is None):
+            continue
+        if rng.random() < 0.3:
+            # what follows the zone is not looked at (theorem C15_date_text_lenient: the trailer is arbitrary): a comment holding the zone
+            # name in the sender's 8-bit code page, valid and invalid UTF-8, a no-break space
+            lay = dict(lay, tr=rng.choice([' (Mitteleurop\xe4ische Sommerzeit)', ' (\xc9t\xe9)', ' (\xff)', '\xa0(x)', ' (caf\xc3\xa9)', ' (\xe4', '\xe4']))
+        age = ec.NOW - c15date.instant(f)
+        cmp_ = rng.choice(['<', '>'])
+        thr = min(2 ** 32 - 1, max(0, age + rng.choice([-1, 0, 1])))
+        conf = 'maildir "~/md" {\n\tmatch date %s%s %d seconds move "~/dst/a"\n}\n' % (rng.choice(['', 'header ']), cmp_, thr)
+        mcases.append(ec.Case(conf, [], b'To: a\nDate: ' + A(c15date.render(f, lay)) + b'\n\nb\n', 'new', '1.host', '0', tz=rng.choice(TZS[:-2])))
+        mexp.append((('MATCH' if ((age > thr) if cmp_ == '>' else (age < thr)) else 'NOMATCH') if cov else 'ERROR', f))
+    # LC_ALL is given to both sides explicitly: the harness environment (vlib.ASAN_ENV) is a snapshot taken when vlib is imported, before
+    # check.py sets LC_ALL=C, and keeps the LC_CTYPE=C.UTF-8 that Python's locale coercion exports; the headers below hold 8-bit bytes
+    ec.run_cases(h, dict(env, LC_ALL='C'), mcases, want_spec=False, denv=dict(os.environ, LC_ALL='C', MDSORT_STRPTIME='model'))
+    stat['model_strptime_eval_cases'] = len(mcases)
+    stat['rfc_header_eval_cases'] = sum(1 for w, f in mexp if f is not None)
+    stat['rfc_header_eval_uncovered_errors'] = sum(1 for w, f in mexp if w == 'ERROR')
+    # the headers of the grammar once more under the UTF-8 locale (mdsort does setlocale(LC_CTYPE, ""): the regex library that sees the header
+    # text after the age comparison, isspace / tolower of strptime and the driver's side all follow it)
+    ucases, uexp = [], []
+    for c, (want, f) in zip(mcases, mexp):
+        if f is not None:
+            u = ec.Case(c.conf, [], c.msg, 'new', '1.host', '0', tz=c.tz)
+            u.locale = 'C.utf8'
+            ucases.append(u)
+            uexp.append((want, f))
+    ec.run_cases(h, dict(env, LC_ALL='C.utf8'), ucases, want_spec=False, denv=dict(os.environ, LC_ALL='C.utf8', MDSORT_STRPTIME='model'))
+    stat['rfc_header_eval_cases_utf8_locale'] = len(ucases)
+    for c, (want, f) in zip(mcases + ucases, mexp + uexp):
+        if c.note == 'fault':
+            rep.finding('sanitizer-fault', dict(c.readable(), implementation=c.impl))
+            continue
+        got = c.impl.split(' ')[0] if c.impl else None
+        if got != want and want != 'ERROR':
+            rep.finding('unlisted', dict(c.readable(), implementation=(c.impl or '')[:200], specification=want, fields=f,
+                                         what='date condition on a Date header in a layout of the RFC 5322 grammar does not compare the true age'))
+        elif c.model is None or ec.impl_core(c) != ec.model_core(c):
+            bad_corr.append(c)
     for it in conffam.pick(lit_bad, key=lambda it: it['what_'][:20]):
         it = dict(it, what=it.pop('what_'), deviations_in_this_family=len(lit_bad), level='real parser and evaluator (harness h_expr)')
         rep.finding('unlisted', it)
     # the same family on the real binary (pinned clock): -n, -d and a real run on a maildir holding one message that is two hours old
+    # date text x locale (tools/c15locale.py): what a Date field carries besides the date - comments in ASCII / UTF-8 / 8-bit code pages,
+    # control bytes, encoded words, folds, blanks - under LC_ALL=C and C.utf8, through time_parse, the evaluator and the real binary
+    lstat, ldifs, lbad = c15locale.stage(rep, sc, h, env, rng, TZS[:-2])
+    bad_corr += lbad
+    for ld in ldifs:
+        ld.conclude('time.c <-> Model/Time.lean (%s)' % ld.name)
     tools = proc.Tools(sc)
     pcases = conffam.int_process_cases(rep.tier)
     with cf.ThreadPoolExecutor(vlib.NCPU) as ex:
@@ -263,7 +332,7 @@ def run(rep):
                        'examples': [dict(c.readable(), implementation=ec.impl_core(c), model=c.model) for c in bad_corr[:5]]}, False)
     vlib.lean_conclude(rep)
     rep.coverage.update({
-        'evaluations': d.evals + len(cases),
+        'evaluations': d.evals + len(cases) + lstat.get('tparse_evaluations', 0) + lstat.get('eval_cases', 0) + lstat.get('process_decisions', 0),
         'distinct_nontrivial': len(set(r for r, i in zip(reqs, impl) if i.startswith('OK'))) + stat['age_cases'],
         'rule': '%d zone strings against the offset formula; %d dates (instants 1970-2037 incl. both sides of DST switches, three layouts, '
                 'numeric zones -2359..+2359, GMT/UT/UTC, odd zones) parsed under %d TZ settings and compared with platform timegm minus zone '
@@ -271,13 +340,32 @@ def run(rep):
                 'name x 7 counts (acceptance, value, 32-bit overflow); %d integer literals (around 2^31, 2^32, 2^63, 2^64, k*2^64 + a valid age, 2^96, 2^128, '
                 '10^19, 10^20, 38 nines, per-unit bounds, leading zeros) x %d unit lexemes through the real parser and evaluator on a message two '
                 'hours old (accepted iff N x unit <= UINT32_MAX, age exactly N x unit, comparison by that age) and %d of them on the real binary '
-                '(-n, -d, real run: rejected with a diagnostic and the message left, or moved iff 7200 > N x unit); non-trivial = accepted/parsed inputs'
-                % (ntz, n, len(TZS), stat['age_cases'], len(conffam.int_literals(rep.tier)), len(conffam.unit_lexemes(rep.tier)), len(pcases)),
+                '(-n, -d, real run: rejected with a diagnostic and the message left, or moved iff 7200 > N x unit); date text x locale: %d Date fields '
+                '(three instants x %d kinds of text after the zone - nothing, blanks, comments in ASCII / UTF-8 / Latin-1, Shift_JIS, KOI8-R and other '
+                'invalid UTF-8, nested and unbalanced comments, control bytes, CRLF, RFC 2047 encoded words, folded comments - and the shapes of the date '
+                'proper: blanks after the colon, folds at every gap with blank and TAB continuation, letter case, zones -2359..+2359 and GMT/UT/UTC), '
+                '%d texts that are no date and %d outside the quantifier, each under LC_ALL=C and LC_ALL=C.utf8 (harness / binary and Lean driver under '
+                'the same LC_ALL): time_parse against model, platform timegm and an independent RFC 5322 reading; the evaluator (real and dry run '
+                'alternating) with thresholds at age-1 / age / age+1 seconds (and hours) against that reading and the model; the real binary, real run '
+                'and -d, %d rules x 2 locales over a maildir holding all of them: moved = listed = (age CMP threshold), exit status 0, no diagnostic; '
+                'texts that are no date: left, not listed, a diagnostic each, exit status not 0; non-trivial = accepted/parsed inputs'
+                % (ntz, n, len(TZS), stat['age_cases'], len(conffam.int_literals(rep.tier)), len(conffam.unit_lexemes(rep.tier)), len(pcases) +
+                '; header text: %d strptime / timeparse() / time_parse() requests on structured and mutated date texts (every layout of formats[], '
+                'with / without day name, full / abbreviated / odd-case / truncated names, 1-5 digit fields, out-of-range fields, seconds 60 / 61, '
+                'all kinds of white space, trailing zone text) against the executable model of strptime; %d date-times of the RFC 5322 grammar '
+                '(Spec.renderDate / instant / WellFormed against an independent rendering, then time_parse of the text = the instant inside '
+                'Covered, rejected for the form without day of week and seconds); %d date conditions evaluated with the model of strptime as the oracle'
+                % (dstat['strptime_requests'], dstat['rfc_datetimes'], stat.get('model_strptime_eval_cases', 0)),
+                   sum(lstat['texts']['per_instant']), lstat['texts']['tails'], lstat['texts']['refuse'], lstat['texts']['observe'], lstat.get('process_rules', 0)),
         'samples': [{'request': d.line(reqs[i])[:200], 'implementation': impl[i], 'model': model[i], 'specification': spec[i]} for i in rng.sample(range(len(reqs)), 4)],
-        'distribution': stat,
-        'correspondence_mismatches': len(d.corr_mismatch) + len(bad_corr),
-        'spec_failures': len(d.spec_fail),
+        'distribution': dict(stat, **dstat),
+        'date_text_locale_stage': lstat,
+        'correspondence_mismatches': len(d.corr_mismatch) + len(dd.corr_mismatch) + len(bad_corr) + sum(len(x.corr_mismatch) for x in ldifs),
+        'spec_failures': len(d.spec_fail) + len(dd.spec_fail) + sum(len(x.spec_fail) for x in ldifs),
     })
+    rep.assumptions += ['date text x locale: the locales are C and C.utf8 (no other locale is installed in this image); the call setlocale(LC_CTYPE, "") of '
+                        'main() is not part of the model - that a real run and -d decide by the age alone in the locale of the environment is observed '
+                        'on the real binary against an RFC 5322 reading of the Date field written in the check (tools/c15locale.py read_date)']
     rep.assumptions += ['file-time fields: the harness gives the file an old mtime and reports the stat times after the evaluation; atime and '
                         'ctime are both "now" on this file system (a swap between those two would not be seen, a swap with mtime is)']
 
@@ -286,10 +374,40 @@ def replay(rep, path):
     import json
     import msgcommon as mc
     j = json.load(open(path))
+    if j.get('family') == c15locale.FAMILY or 'LC_ALL=' in str(j.get('harness', '')):
+        sc = vlib.Scratch()
+        vlib.lean_gate(rep, 'C15', sc, [])
+        if 'locale' not in j:
+            j['locale'] = str(j['harness']).split(' ')[-1]
+        c15locale.replay(rep, j, sc)
+        rep.coverage.update({'evaluations': 1, 'distinct_nontrivial': 1})
+        return
     if str(j.get('level', '')).startswith('real binary'):
         sc = vlib.Scratch()
         vlib.lean_gate(rep, 'C15', sc, [])
         conffam.replay(j, sc)
         rep.coverage.update({'evaluations': 1, 'distinct_nontrivial': 1})
         return
-    mc.generic_replay(rep, path, 'C15', {'tparse'}, {}, included=ec.INCLUDED, hname='h_expr')
+    if str(j.get('request', '')).startswith('eval ') and j.get('specification') in ('MATCH', 'NOMATCH') and 'file_times' not in j:
+        # a date condition evaluated on a message (families `age` and RFC 5322 headers): the real evaluator under the recorded locale
+        # against the recorded expectation and against the model with Model.timeparseC as its strptime
+        sc = vlib.Scratch()
+        h, env = ec.harness(sc)
+        vlib.lean_gate(rep, 'C15', sc, [])
+        t = j['request'].split(' ')
+        un = lambda x: vlib.unhex(x).decode('latin-1')    # noqa: E731
+        c = ec.Case(un(t[1]), [], vlib.unhex(t[2]), un(t[3]), un(t[4]), un(t[5]), tz=un(t[7]) if len(t) > 7 else None)
+        loc = str(j.get('locale') or 'LC_ALL=C').split('=')[-1]
+        c.locale = loc
+        ec.run_cases(h, dict(env, LC_ALL=loc), [c], want_spec=False, denv=dict(os.environ, LC_ALL=loc, MDSORT_STRPTIME='model'))
+        got = c.impl.split(' ')[0] if c.impl else None
+        print('locale         LC_ALL=%s\nimplementation %s\nmodel          %s\nspecification  %s' % (loc, (c.impl or '')[:300], (c.model or '')[:300], j['specification']))
+        if got != j['specification']:
+            rep.finding('unlisted', dict(c.readable(), implementation=(c.impl or '')[:200], specification=j['specification'],
+                                         what=j.get('what', 'date condition does not compare the true age')))
+        elif c.model is None or ec.impl_core(c) != ec.model_core(c):
+            rep.violation({'obligation': 'correspondence expr_eval_date <-> Model/Eval.lean', 'examples': [dict(c.readable(), implementation=c.impl, model=c.model)]}, False)
+        vlib.lean_conclude(rep)
+        rep.coverage.update({'evaluations': 1, 'distinct_nontrivial': 1})
+        return
+    mc.generic_replay(rep, path, 'C15', {'tparse', 'tparsec', 'strp', 'timeparse'}, {}, included=ec.INCLUDED, hname='h_expr')
